@@ -4,6 +4,8 @@ package hsrv
 
 import (
 	"crypto/tls"
+
+	"golang.org/x/net/idna"
 	"net"
 	"net/http"
 	"net/url"
@@ -15,6 +17,7 @@ import (
 
 //verif:stub (*net/http.Request).ParseForm stubParseForm
 //verif:stub golang.org/x/net/idna.ToASCII stubToASCII
+//verif:stub (*golang.org/x/net/idna.Profile).ToASCII stubProfileToASCII
 //verif:stub net.JoinHostPort stubJoinHostPort
 //verif:stub os.ReadFile stubReadFile
 //verif:stub math/rand.Uint64 stubRandUint64
@@ -46,6 +49,24 @@ func stubToASCII(s string) (string, error) {
 		return "", nil
 	}
 	return "xn--" + s, nil
+}
+
+// stubProfileToASCII: the other IDNA profiles.  idna.Punycode (which the package-level ToASCII
+// uses) performs no validation; the Lookup / Registration / Display profiles enforce STD3 ASCII
+// rules and reject any label with a character outside letters, digits and hyphen - such as the
+// colons and brackets of an IPv6 literal or an underscore.
+func stubProfileToASCII(p *idna.Profile, s string) (string, error) {
+	if p == idna.Punycode {
+		return stubToASCII(s)
+	}
+	for i := 0; i < len(s); i++ {
+		c := s[i]
+		ldh := c >= 'a' && c <= 'z' || c >= 'A' && c <= 'Z' || c >= '0' && c <= '9' || c == '-' || c == '.' || c >= 0x80
+		if !ldh {
+			return "", &stubErr{"idna: disallowed rune"}
+		}
+	}
+	return stubToASCII(s)
 }
 func stubJoinHostPort(host, port string) string {
 	for i := 0; i < len(host); i++ {
